@@ -65,6 +65,11 @@ func ParseFile(f FileInput, opts ...Option) (prog *Prog, _ error) {
 				rerr <- nil
 				break
 			}
+			if n == 0 {
+				// a read of zero bytes carries no input; an empty chunk
+				// would look like the end of input to the lexer
+				continue
+			}
 			select {
 			case inpc <- string(b[:n]):
 				continue
